@@ -145,9 +145,12 @@ impl Node {
     /// Effectively, allows only One non-secure node or Eight secure nodes from the same IP, in the routing table or ClosestNodes.
     pub(crate) fn already_exists(&self, nodes: &[Self]) -> bool {
         nodes.iter().any(|existing| {
-            self.same_ip(existing)
-                && (!existing.is_secure()
-                    || self.id().first_21_bits() == existing.id().first_21_bits())
+            // The same address is the same node, whatever id it is listed under (a node that
+            // changed its id keeps being listed under the old one for a while).
+            self.same_address(existing)
+                || (self.same_ip(existing)
+                    && (!existing.is_secure()
+                        || self.id().first_21_bits() == existing.id().first_21_bits()))
         })
     }
 }
